@@ -222,6 +222,7 @@ func init() {
 			c.ruleDecodeProduces("E4.decode-produces", []string{"pkg/packet/bgp"}, 200)
 			c.ruleConfigAPISymmetry()
 			c.ruleStatementProvenance()
+			c.ruleLoopCarriedStruct("E2.loop-carried-struct", []string{"pkg/server", "pkg/config/oc", "pkg/apiutil"}, 5)
 		},
 	})
 }
